@@ -14,7 +14,9 @@ Local Open Scope Z_scope.
 Definition len {A} (l : list A) : Z := Z.of_nat (length l).
 Definition take {A} (n : Z) (l : list A) : list A := firstn (Z.to_nat n) l.
 Definition drop {A} (n : Z) (l : list A) : list A := skipn (Z.to_nat n) l.
-Definition fill (junk : Z -> Z) (k : Z) : list Z := map (fun i => junk (Z.of_nat i)) (seq 0 (Z.to_nat k)).
+Fixpoint fill_from (junk : Z -> Z) (start : Z) (n : nat) : list Z :=
+  match n with O => [] | S m => junk start :: fill_from junk (start + 1) m end.
+Definition fill (junk : Z -> Z) (k : Z) : list Z := fill_from junk 0 (Z.to_nat k).
 Definition zeros (k : Z) : list Z := repeat 0 (Z.to_nat k).
 
 (* sc_io_error_t, and the instrumentation value for "the model would have copied outside the array" *)
